@@ -12,13 +12,17 @@
                          collisions                                the directory g ("in the way")
        (u1 stands for a non-ASCII name in the driver's table; q, n do not exist)
    World "fresh": an empty grid directory (a new alias) and a small local tree; world "flat": files only.
+   Worlds "tiny<i>" (TinyMod > 0): every pair (local tree, grid tree) of the trees with at most two entries -- nothing, a, a
+   and b, a and a/a, a and a/b, every entry a file or a directory (on the grid also a mutable file) -- with every path of
+   either tree (and q, n, a/n, which are missing) as source and as target: small worlds in which sources, targets and
+   what is in the way share names.
 
    Lists of one source: every source x target x flags (one in Mod1); lists of two and three sources: every first source x
    target x flags (one in Mod2 / Mod3), the other sources chosen by a fixed arithmetic of the indices rotated by Seed.  The
    spelling of every argument (`form`) is chosen by the same arithmetic. *)
 EXTENDS CliCp, Json, IOUtils, SequencesExt
 
-CONSTANTS Seed, Mod1, Mod2, Mod3, WorldNames
+CONSTANTS Seed, Mod1, Mod2, Mod3, WorldNames, TinyMod
 
 P1(x) == <<x>>
 P2(x, y) == <<x, y>>
@@ -65,6 +69,24 @@ Worlds ==
              unnamed |-> {<<>>, P1("f"), P1("m")},
              tgt |-> {<<>>, P1("n"), P1("x"), P1("m")}]]
 
+\* ---- the enumerated small worlds ----
+Shapes == {{}, {P1("a")}, {P1("a"), P1("b")}, {P1("a"), P2("a", "a")}, {P1("a"), P2("a", "b")}}
+IsLeaf(S, p) == ~\E q \in S : Len(q) > Len(p) /\ IsPrefixOf(p, q)
+TinyTrees(pfx, mut) ==
+  UNION {{[p \in S |-> CASE kinds[p] = "dir" -> DirNode
+                          [] kinds[p] = "mfile" -> MutNode(pfx \o PathStr(p), "m" \o PathStr(p))
+                          [] OTHER -> FileNode(pfx \o PathStr(p))] :
+            kinds \in {k \in [S -> IF mut THEN {"file", "dir", "mfile"} ELSE {"file", "dir"}] :
+                         \A p \in S : ~IsLeaf(S, p) => k[p] = "dir"}} : S \in Shapes}
+TinyWorlds ==
+  SetToSeq({[W |-> [L |-> l, G |-> g],
+             src |-> DOMAIN l \cup DOMAIN g \cup {P1("q")},
+             slashed |-> DOMAIN l \cup DOMAIN g,
+             unnamed |-> {<<>>} \cup DOMAIN g,
+             tgt |-> {<<>>, P1("n"), P2("a", "n")} \cup DOMAIN l \cup DOMAIN g] :
+               l \in TinyTrees("l", FALSE), g \in TinyTrees("g", TRUE)})
+TinyName(i) == "tiny" \o ToString(i)
+
 LocalForms == <<"abs", "dot", "bare">>
 GridForms == <<"alias", "parentcap", "dotcap">>
 Flags == <<[r |-> FALSE, caps |-> FALSE], [r |-> TRUE, caps |-> FALSE], [r |-> FALSE, caps |-> TRUE], [r |-> TRUE, caps |-> TRUE]>>
@@ -101,20 +123,23 @@ Row(w, tb, ix, t, f) ==
             r |-> Flags[f].r, caps |-> Flags[f].caps]
   IN [world |-> w, W |-> tb.W, a |-> a, res |-> Cp(tb.W, a)]
 
-RowsOf(w, tb) ==
+RowsOf(w, tb, seed, m1, m2, m3) ==
   LET NS == Len(tb.S)
       NP == Len(tb.plain)
-      Sel(I, F, m) == {y \in I \X tb.adm \X F : (Hash(y[1], y[2], y[3]) + Seed) % m = 0}
-      H(x, m) == (Hash(x[1], x[2], x[3]) + Seed) \div m
+      Sel(I, F, m) == {y \in I \X tb.adm \X F : (Hash(y[1], y[2], y[3]) + seed) % m = 0}
+      H(x, m) == (Hash(x[1], x[2], x[3]) + seed) \div m
   IN \* one source: every (source, target, flags), thinned to one in Mod1
-     {Row(w, tb, <<x[1]>>, x[2], x[3]) : x \in Sel(1..NS, 1..4, Mod1)}
+     {Row(w, tb, <<x[1]>>, x[2], x[3]) : x \in Sel(1..NS, 1..4, m1)}
      \* two sources: every (first source, target, flags), thinned to one in Mod2; the second source follows from the arithmetic
-     \cup {Row(w, tb, <<x[1], Pick(NS, H(x, Mod2))>>, x[2], x[3]) : x \in Sel(1..NS, 1..4, Mod2)}
+     \cup {Row(w, tb, <<x[1], Pick(NS, H(x, m2))>>, x[2], x[3]) : x \in Sel(1..NS, 1..4, m2)}
      \* three sources (of the plain ones), without --caps-only
-     \cup {Row(w, tb, <<x[1], tb.plain[Pick(NP, H(x, Mod3))], tb.plain[Pick(NP, H(x, Mod3) \div NP)]>>, x[2], x[3]) :
-             x \in Sel(ToSet(tb.plain), 1..2, Mod3)}
+     \cup {Row(w, tb, <<x[1], tb.plain[Pick(NP, H(x, m3))], tb.plain[Pick(NP, H(x, m3) \div NP)]>>, x[2], x[3]) :
+             x \in Sel(ToSet(tb.plain), 1..2, m3)}
 
-Rows == LET WS == Worlds IN UNION {RowsOf(w, Tables(WS[w])) : w \in WorldNames}
+Rows == LET WS == Worlds
+            TW == IF TinyMod = 0 THEN <<>> ELSE TinyWorlds
+        IN UNION {RowsOf(w, Tables(WS[w]), Seed, Mod1, Mod2, Mod3) : w \in WorldNames}
+           \cup UNION {RowsOf(TinyName(i), Tables(TW[i]), Seed + 7 * i, TinyMod, 2 * TinyMod, 2 * TinyMod) : i \in 1..Len(TW)}
 
 (* ---- output ------------------------------------------------------------------------------------------- *)
 TreeOut(T) == {[p |-> PathStr(q), k |-> T[q].k, c |-> T[q].c, mu |-> T[q].mu, o |-> T[q].o] : q \in DOMAIN T}
@@ -131,8 +156,12 @@ Out(row) ==
 WorldOut(w, wr) == [world |-> w, expect |-> "WORLD", L0 |-> TreeOut(wr.W.L), G0 |-> TreeOut(wr.W.G)]
 
 ASSUME LET WS == Worlds IN \A w \in WorldNames : WellFormed(WS[w].W.L) /\ WellFormed(WS[w].W.G)
-ASSUME LET WS == Worlds IN
-       ndJsonSerialize(IOEnv.OUT_FILE, SetToSeq({WorldOut(w, WS[w]) : w \in WorldNames}) \o SetToSeq({Out(row) : row \in Rows}))
+ASSUME LET WS == Worlds
+           TW == IF TinyMod = 0 THEN <<>> ELSE TinyWorlds
+       IN ndJsonSerialize(IOEnv.OUT_FILE, SetToSeq({WorldOut(w, WS[w]) : w \in WorldNames})
+                                          \o [i \in 1..Len(TW) |-> WorldOut(TinyName(i), TW[i])]
+                                          \o SetToSeq({Out(row) : row \in Rows}))
+ASSUME TinyMod = 0 \/ \A i \in 1..Len(TinyWorlds) : WellFormed(TinyWorlds[i].W.L) /\ WellFormed(TinyWorlds[i].W.G)
 
 VARIABLE c
 Init == c \in Rows
